@@ -43,8 +43,8 @@ Cap(bits) == SizeCap * (IF bits <= 64 THEN 128 ELSE IF bits <= 129 THEN 64 ELSE 
 Keep(h, t) == h % t = 0
 
 FIntOps == <<"add", "sub", "mul", "butterfly", "shl", "shr", "twiddle", "reduce">>
-FPats == <<"zero", "one", "top", "max", "rand", "half", "lowones">>
-FInt == {x \in [op : {"fint"}, N : {16, 32, 64, 128, 256}, fop : 1..8, pa : 1..7, pb : 1..5] :
+FPats == <<"zero", "one", "top", "max", "rand", "half", "lowones", "runs", "pow2diff">>
+FInt == {x \in [op : {"fint"}, N : {16, 32, 64, 128, 256}, fop : 1..8, pa : 1..9, pb : {1, 2, 3, 4, 5, 8, 9}] :
            /\ (x.fop >= 5 => x.pb = 1)                              \* unary operations
            /\ (x.N >= 64 => Keep(x.fop + x.pa + 2 * x.pb + x.N \div 64, ThinF))}
 
